@@ -46,7 +46,7 @@ def _k1_worker(args):
     try:
         from pyvc import verify
         c = contracts.REGISTRY[key]
-        res = verify.check(c, None, timeout_ms)
+        res = verify.check(c, None, timeout_ms, second_opinion=(tier == 'thorough'))
         d = res.to_json()
         if res.error is None:
             from pyvc import native
